@@ -25,6 +25,13 @@ CHECKS = {
             "TLC evaluates the property formulas of spec/Trace_P.tla on every step of recorded executions of real replicas under an adversarial scheduler (trace validation, Pass A)",
             "Every call of a replica's signing primitive is recorded (ground truth); TLC checks at each vote that the block was proposed to the voter by the leader of its view, carries a QC backed by a quorum of real votes, directly extends the certified block, and that views voted/timed-out are strictly exceeded.",
             "Byzantine keys count as having signed everything; one scheduler step = one delivery run to quiescence.", "DESIGN.md section 6, C03"),
+    "C05": ("model_checking",
+            "TLC evaluates bounded progress (liveness as safety) and the fault-free shape on every step of recorded executions of real replicas: chaos prefix, then a synchronous suffix of a live quorum (spec/Trace_P.tla, P_C05)",
+            "Real replicas run a chaos prefix (loss, duplication, reordering, timer firings, up to f crashed replicas), then a live quorum of honest replicas is scheduled "
+            "synchronously (all messages among it before any of its timers, later views led by its members; round-robin, fixed and scripted leaders; n in {4,7}); TLC checks "
+            "that every member has committed a new block once it is 3*(ChainLength+1) views beyond the heal, and in fault-free synchronous runs that nobody times out, every "
+            "view adds a block on the previous view's block and commits trail the proposal by exactly ChainLength. Fast-HotStuff fails (known finding, see DESIGN 7/D11).",
+            "Commands are always available; the bound is measured on the stepping member's view.", "DESIGN.md section 6, C05"),
     "C06": ("model_checking",
             "TLC evaluates the property formulas of spec/Trace_P.tla on every step of recorded executions of real replicas under an adversarial scheduler (trace validation, Pass A)",
             "Real ClientIO and CommandCache run in every replica with a waiting client registered for every command; TLC checks execute-event order against the committed chain, the exactly-once count, digest equality at equal counts across replicas, prefix-related executed sequences and at-most-one / success-implies-executed outcomes.",
